@@ -40,7 +40,10 @@ def text_value(rng, words, n):
     toks, p = [], 0
     for _ in range(n):
         w = rng.choice(words)
-        toks.append([w, p, rng.choice([1, 1, 1, 2])])
+        if isinstance(w, tuple):            # (key, bytes): a long run given as "long:<c>:<n>"
+            toks.append([w[0], p, 1, w[1]])
+        else:
+            toks.append([w, p, rng.choice([1, 1, 1, 2])])
         p += rng.choice([1, 1, 1, 0, 2])
     return toks
 
@@ -95,7 +98,7 @@ def rich_case(i, rng, special=False):
     words = list(WORDS)
     if special:
         pre = "p" * rng.choice([300, 1000])
-        words += [pre, pre + "a", pre + "b", pre + "aa", "q" * 60000 if rng.random() < 0.5 else "q" * 3000]
+        words += [pre, pre + "a", pre + "b", pre + "aa", rng.choice([("long:q:60000", 60000), "q" * 3000, ("long:z:65530", 65530), ("long:z:65531", 65531), ("long:y:70000", 70000)])]
     nseg = rng.choice([1, 2, 2, 3])
     segs = [[rich_doc(rng, words) for _ in range(rng.choice([1, 5, 20, 60]))] for _ in range(nseg)]
     n = sum(len(s) for s in segs)
@@ -227,6 +230,26 @@ def json2_case(i, c, rng):
     return {"id": i, "kind": "json2", "json2": c, "segs": [docs[:2], docs[2:]], "deletes": [], "merge": True, "seeks": []}
 
 
+def longtok_case(i, c, rng):
+    """a token of MaxTokenLen / MaxTokenLen + 1 / 70,000 bytes: alone in a value, between normal tokens, in a multi-valued field"""
+    f, n = c["opt"], c["bytes"]
+    blob = [f"long:{'xyz'[n % 3]}:{n}", 0, 1, n]
+    docs = []
+    for variant in range(3):
+        if c["place"] == "alone":
+            vals = [[blob]]
+        elif c["place"] == "between":
+            vals = [[["a", 0, 1], [blob[0], 1, 1, n], ["b", 2, 1], ["a", 3, 1]]]
+        else:
+            vals = [[["a", 0, 1]], [blob], [["b", 0, 1], ["c", 1, 1]]]
+        if variant == 1:
+            vals = vals + [[["w1", 0, 1]]]
+        docs.append({f: vals})
+        if variant == 2:
+            docs.append({f: [[["a", 0, 1]]]})
+    return {"id": i, "kind": "longtok", "longtok": c, "segs": [docs[:2], docs[2:]], "deletes": [], "merge": True, "seeks": []}
+
+
 def describe(unit, k, text):
     e = unit[k - 1]
     seg = next((x for x in reversed(unit[:k]) if x.get("ev") == "seg"), {})
@@ -245,7 +268,7 @@ def describe(unit, k, text):
 
 def run_cases(ctx, cases, label):
     cp = ctx.path(f"{label}_cases.ndjson")
-    vlib.write_ndjson(cp, [{k: v for k, v in c.items() if k not in ("kind", "shape", "tf", "many", "jsonvals", "vintb", "json2")} for c in cases])
+    vlib.write_ndjson(cp, [{k: v for k, v in c.items() if k not in ("kind", "shape", "tf", "many", "jsonvals", "vintb", "json2", "longtok")} for c in cases])
     tp = ctx.path(f"{label}_trace.ndjson")
     vlib.run_bin("invidx_driver", ["run", "--in", cp, "--out", tp], timeout=900, mem_gb=12)
     ev = _fid.clean(vlib.read_ndjson(tp))
@@ -363,6 +386,12 @@ def run(ctx):
     for j in jvs:
         cases.append(jsonvals_case(len(cases), j, rng))
     ctx.cov["json_multi_value_cases"] = len(jvs)
+    lts = [c for c in gen if c["what"] == "longtok"]
+    if len(lts) < 20:
+        raise vlib.ToolError("Gen_InvertedIndex produced no over-long token cases")
+    for c in lts:
+        cases.append(longtok_case(len(cases), c, rng))
+    ctx.cov["over_long_token_cases"] = len(lts)
     j2s = [c for c in gen if c["what"] == "json2"]
     if len(j2s) < 12:
         raise vlib.ToolError("Gen_InvertedIndex produced no two-JSON-field cases")
